@@ -28,10 +28,15 @@ def main():
             c = s.open(); s.cmd(c, [b'FLUSHALL'])
             for j in range(M):
                 c = workloads.ensure_conn(s, c)
-                s.cmd(c, g.next())
+                a = g.next()
+                s.cmd(c, a)
+                if gname == 'ZSetGen' and a[0].upper() in workloads.ZMUT and len(a) > 1 and srv.alive():
+                    res = srv.ctl.cmd('ZCHECK 0 ' + a[1].hex())
+                    if res != 'NONE':
+                        tr.emit({'k': 'chk', 'name': 'skiplist', 'ok': 1 if res == 'OK' else 0, 'detail': res[:200]})
             c = workloads.ensure_conn(s, c)
             workloads.dump_db(s, c)
-        except ServerDied:
+        except (ServerDied, OSError):
             pass
         s.close_all(); tr.close()
         if not srv.alive():
@@ -50,8 +55,8 @@ def main():
             evs = [json.loads(l) for l in open(p)]
             ev = evs[res['rejected_at'] - 1]
             out = res['out']
-            m = re.search(r'"EXPECTED-ONE-OF", (.*?)>>\n<<"CONN', out, re.S)
-            exp = re.sub(r'\s+', ' ', m.group(1))[:160] if m else '?'
+            m = re.search(r'"EXPECTED-ONE-OF",\s*(.*?)>>\s*\n<<\s*"CONN', out, re.S)
+            exp = re.sub(r'\s+', ' ', m.group(1))[:260] if m else out[-600:]
             name = bytes(ev['argv'][0]).upper() if ev.get('k') == 'cmd' and ev['argv'] else ev.get('k')
             sig = (name, runner.render_reply(ev['r'])[:60] if ev.get('k') == 'cmd' else '')
             sigs.setdefault(sig, []).append((p, res['rejected_at'], runner.render_event(ev), exp))
